@@ -26,6 +26,13 @@ pub const MAP_ANONYMOUS: c_int = 0x20;
 pub const MAP_ANON: c_int = 0x1000; // macOS value; only used by the macOS variant
 pub const MAP_JIT: c_int = 0x0800; // macOS value
 pub const MAP_FAILED: *mut c_void = !0 as *mut c_void;
+// macOS names (a64-macos variant; compile-only except mmap/munmap)
+pub type mach_vm_address_t = u64;
+pub type vm_prot_t = i32;
+pub const VM_PROT_READ: vm_prot_t = 1;
+pub const VM_PROT_WRITE: vm_prot_t = 2;
+pub const VM_PROT_EXECUTE: vm_prot_t = 4;
+pub unsafe fn pthread_jit_write_protect_np(_enabled: c_int) {}
 
 pub mod sim {
     use core::ptr::addr_of_mut;
@@ -351,6 +358,24 @@ pub mod sim {
                 store(&mut *addr_of_mut!(JIT[j]), tmp, n, false);
                 return;
             }
+            j += 1;
+        }
+        // A write that starts INSIDE a designated region (a patch written in several pieces) is
+        // legitimate code the block-level model cannot represent: inconclusive, not a violation.
+        let mut i = 0;
+        while i < S.NE_ACT {
+            assert!(
+                !(ENT[i].live && addr > ENT[i].base && addr < ENT[i].base.wrapping_add(ENT[i].slot as u64)),
+                "MODEL: write starting inside a function entry slot (piecewise patch) is not supported by the block-level memory model"
+            );
+            i += 1;
+        }
+        let mut j = 0;
+        while j < S.NJ_ACT {
+            assert!(
+                !(JIT[j].live && addr > JIT[j].base && addr < JIT[j].base.wrapping_add(RLEN as u64)),
+                "MODEL: write starting inside a trampoline block (piecewise write) is not supported by the block-level memory model"
+            );
             j += 1;
         }
         panic!("VERIF[C03]: write to an address that is neither a designated function entry nor a trampoline the injector mapped");
